@@ -8,9 +8,24 @@ THEOREMS = [
     {"name": "C09_request_frame", "strength": "F",
      "text": "a status request changes only the workflow status and task statuses (staged, contexts, routes, pointer "
              "map, output and every other record field untouched), also when rejected"},
+    {"name": "C09b_pause_api_changes_statuses_only / C09b_pause_of_plain_tasks_changes_workflow_status_only / "
+             "C09b_status_request_changes_statuses_and_log_only (props/C09b.v)", "strength": "F",
+     "text": "a pause request, accepted or rejected, leaves the whole conductor state unchanged except the workflow status "
+             "and record statuses (strip c' = strip c); with no item table on an active task only the workflow status"},
+    {"name": "C09b_task_machine_commutes_with_pause / C09b_task_report_never_resumes / C09b_wf_pausing_mirrors_running / "
+             "C09b_pausing_is_active", "strength": "F",
+     "text": "a report completes its task in exactly the same cases and with the same status whether the record is running "
+             "or was pushed to pausing; over the whole workflow table a task event fails or cancels the pausing workflow "
+             "exactly when it fails or cancels the running one (success becomes paused); the retry gate agrees"},
+    {"name": "C09b_resume_polls_the_held_entries", "strength": "F",
+     "text": "resume continues with precisely the work that was held back: no status request touches the staged entries"},
+    {"name": "C09b_pause_not_transparent_for_status_reading_condition", "strength": "R",
+     "text": "a condition reading $__state.status sees the pause (replayed on the engine): transparency can only hold for "
+             "expressions that do not read the engine's bookkeeping (known finding C16-dunder-direct-variable)"},
     {"name": "(tested, not proved) outcome equal to the unpaused twin; paused exactly when the last action reports",
      "strength": "T", "text": "monitor c09: pause inserted before sampled (quick) / every (thorough) event of the "
-                              "simulated history, resume when at rest, compared with the unpaused run"},
+                              "simulated history, resume when at rest, compared with the unpaused run (the whole-call "
+                              "commutation strip(update e (pause c)) = strip(update e c) is not proved)"},
 ]
 TRUSTED_BASE = common.TRUSTED_BASE_COMMON
 ASSUMPTIONS = [
